@@ -46,7 +46,7 @@ def gen_cases(ctx):
         mv["strategy"] = rng.choice(["recursive", "nonrecursive", "numba", None])
         mv["tstep"] = rng.choice([1, 1, 2])
         mag = rng.choice([0, 1, 2, 50, 1000])
-        mv["vel"] = [rng.randint(-mag, mag) for _ in range(mv["dim"])]
+        mv["vel"] = [rng.randint(-mag, mag) * mv.get("fine", 1) for _ in range(mv["dim"])]
         yield mv
     m = ctx.n(80, 1000)
     for i in range(m):
